@@ -80,6 +80,16 @@ class PoolList(View):
                 self.key[k] = z3.Store(self.key[k], self.m, unwrapv(I, k, cp.fields[k]))
             self.m = self.m + 1
             return None
+        if name == 'remove' and isinstance(args[0], SymObj) and args[0].cls == 'CanonicalPoolMetadata' and 'pos' in args[0].fields:
+            # list.remove of an entry of this list (entries are pairwise distinct: WF): everything behind it moves up
+            r = args[0].fields['pos']
+            j = z3.Int(I.e.fresh_name('rmj'))
+            shift = lambda arr: z3.Lambda([j], z3.If(j < r, arr[j], arr[j + 1]))
+            self.idx, self.fnidx = shift(self.idx), shift(self.fnidx)
+            for k in KEYS:
+                self.key[k] = shift(self.key[k])
+            self.m = self.m - 1
+            return None
         raise Unsupported(f'canonical_pools.{name}')
 
 
